@@ -213,7 +213,7 @@ class Unit:
         return "\n".join(l for l, _ in self.lines) + "\n"
 
 
-def splice_function(u, spec, mode, canary=False, variants=()):
+def splice_function(u, spec, mode, canary=False, variants=(), rename=None):
     job = {"file": os.path.join(REPO, spec.file), "selector": spec.selector, "rules": spec.rules,
            "hints": spec.hints, "substs": spec.substs if mode == "prove" else
            [s for s in spec.substs if s["name"].startswith("sig")]}
@@ -302,6 +302,11 @@ def splice_function(u, spec, mode, canary=False, variants=()):
         for l in spec.extra:
             contract.append("    " + l.strip())
         hd = head
+        if rename:
+            hd2 = re.sub(r"\bfn\s+%s\b" % re.escape(sig["name"]), "fn %s" % rename, hd, count=1)
+            if hd2 == hd:
+                raise LostAnchor("%s: cannot rename function to %s" % (spec.key, rename))
+            hd = hd2
         if is_canary:
             hd2 = re.sub(r"\bfn\s+%s\b" % re.escape(sig["name"]), "fn %s__canary" % sig["name"], hd, count=1)
             if hd2 == hd:
@@ -385,7 +390,13 @@ def _expand(u, path, canary):
         elif s.startswith("//@prove") or s.startswith("//@use"):
             mode = "prove" if s.startswith("//@prove") else "use"
             key = s.split()[1]
-            splice_function(u, load_spec(key), mode, canary, tuple(s.split()[2:]))
+            opts = s.split()[2:]
+            rename = None
+            for o in list(opts):
+                if o.startswith("as="):
+                    rename = o[3:]
+                    opts.remove(o)
+            splice_function(u, load_spec(key), mode, canary, tuple(opts), rename)
         elif s.startswith("//@item"):
             m = re.match(r"//@item\s+(\S+)\s*::\s*([^|]+?)(?:\s*\|\s*(.*))?$", s)
             if not m:
